@@ -70,10 +70,12 @@ class ProjectSettings:
     @sim_start.setter
     def sim_start(self, sim_start):
         self._sim_start = sim_start
+        self.sim_end = self.sim_end  # Call the setter function so that the end year stays a whole number of timesteps after the new start year
 
     @sim_end.setter
     def sim_end(self, sim_end):
-        self._sim_end = self.sim_start + np.ceil((sim_end - self.sim_start) / self.sim_dt) * self.sim_dt
+        # Round before taking the ceiling so that a span that is a whole number of timesteps up to floating point error (e.g. 1.4/0.1 = 14.000000000000002) does not gain a step
+        self._sim_end = self.sim_start + np.ceil(np.round((sim_end - self.sim_start) / self.sim_dt, 9)) * self.sim_dt
         if sim_end != self._sim_end:
             logger.info(f"Changing sim end from {sim_end} to {self._sim_end} ({(self._sim_end - self._sim_start) / self._sim_dt:.0f} timesteps)")
 
@@ -95,7 +97,7 @@ class ProjectSettings:
 
         """
 
-        return np.linspace(self.sim_start, self.sim_end, int((self.sim_end - self.sim_start) / self.sim_dt) + 1)
+        return np.linspace(self.sim_start, self.sim_end, int(np.round((self.sim_end - self.sim_start) / self.sim_dt)) + 1)  # Round rather than truncate, as e.g. 35/0.3 = 116.99999999999999
 
     def update_time_vector(self, start: float = None, end: float = None, dt: float = None) -> None:
         """
